@@ -68,7 +68,7 @@ theorem ensure_sim {l : AL} {r : RefL} (h : Rel l r) (i : Nat) :
     | none =>
       have hdyn : l.dyn = true := by rw [h.dyn, hc]; rfl
       by_cases hlt : l.data.length < (i + 1) * r.isz
-      · simp only [ensureCapacity, hcalc, if_pos hlt, hdyn]
+      · simp only [ensureCapacity, growthNewSize, hcalc, if_pos hlt, hdyn]
         generalize hns : (if l.data.length * 2 % 2 ^ 64 > (i + 1) * r.isz then l.data.length * 2 % 2 ^ 64 else (i + 1) * r.isz) = newSize
         have hge : (i + 1) * r.isz ≤ newSize := by rw [← hns]; split <;> omega
         have hmax : newSize ≤ SIZE_MAX := by
